@@ -23,6 +23,20 @@ BehCases == { [c |-> c, first |-> f, kind |-> k, class |-> cl,
                delay |-> DelayOf(cl, c.rht), out |-> Outcome(c, DelayOf(cl, c.rht))] :
                 c \in MCConfigs, f \in MCConfigs \cup {Zero}, k \in Kinds, cl \in MCDelays }
 \* (mentions a variable so that TLC does not evaluate it as a constant in every run)
+\* concurrent requests: k at once, hanging / fast upstream
+ConcCases == { [t |-> "conc", c |-> c, kind |-> k, n |-> n, class |-> cl, delay |-> DelayOf(cl, c.rht),
+                out |-> Outcome(c, DelayOf(cl, c.rht))] :
+                 c \in MCConfigs, k \in Kinds, n \in UNION {Burst(c.maxidle) : c \in MCConfigs}, cl \in {"zero", "above"} }
+ConcCasesOf == { x \in ConcCases : x.n \in Burst(x.c.maxidle) }
+\* idle connections per host: bursts A, B, A of n requests through one shared transport
+ReuseCases == { [t |-> "reuse", c |-> c, kind |-> k, n |-> n, new |-> NewConnsAfterBursts(c, NoExtra, n)] :
+                 c \in MCConfigs, k \in {"default", "insecure"}, n \in 1..7 }
+ReuseCasesOf == { x \in ReuseCases : x.n \in {1, x.c.maxidle - 1, x.c.maxidle} }
+MCOperator == C1
+BehPrint2 == \A b \in ConcCasesOf \cup ReuseCasesOf : hist = <<>> /\ PrintT(ToJson(b))
+Beh2Init == Init /\ BehPrint2
+Beh2Spec == Beh2Init /\ [][UNCHANGED vars]_vars
+
 BehPrint == \A b \in BehCases : hist = <<>> /\ PrintT(ToJson(b))
 BehInit == Init /\ BehPrint
 BehSpec == BehInit /\ [][UNCHANGED vars]_vars
